@@ -365,8 +365,19 @@ def rule_ed_once(ctx: RuleContext, p: Program, rid: str, fns: Optional[list[Func
                 if isinstance(a, ast.Call) and isinstance(a.func, ast.Name) and a.func.id in m.symbols:
                     g = m.symbols[a.func.id]
                     if isinstance(g, FuncInfo):
-                        ys = [y for y in walk_no_nested(g.node) if isinstance(y, ast.Yield)]
-                        if ys and all(isinstance(y.value, ast.Call) and (dotted(y.value.func) or '').endswith('normpath') for y in ys):
+                        ys = [y for y in walk_no_nested(g.node) if isinstance(y, (ast.Yield, ast.YieldFrom))]
+
+                        def normalised(y: ast.AST) -> bool:
+                            v = y.value  # type: ignore[attr-defined]
+                            if isinstance(y, ast.Yield):
+                                return isinstance(v, ast.Call) and (dotted(v.func) or '').endswith('normpath')
+                            # yield from map(os.path.normpath, xs) / (os.path.normpath(x) for x in xs) / [os.path.normpath(x) for x in xs]
+                            if isinstance(v, ast.Call) and norm(v.func) == 'map' and v.args and (dotted(v.args[0]) or '').endswith('normpath'):
+                                return True
+                            if isinstance(v, (ast.GeneratorExp, ast.ListComp)) and isinstance(v.elt, ast.Call) and (dotted(v.elt.func) or '').endswith('normpath'):
+                                return True
+                            return False
+                        if ys and all(normalised(y) for y in ys):
                             continue
                         problems.append(f'{g.name} yields a path that did not go through os.path.normpath')
                         continue
